@@ -49,6 +49,7 @@ struct Property {
   long quick_runs = 400, thorough_runs = 20000;
   double quick_secs = 75, thorough_secs = 900;
   int run_timeout_s = 60;
+  int confirm_timeout_factor = 5;    // isolated replays (which decide) get this many times the batch budget
   bool exhaustive = false;
   std::string design_ref;
 };
